@@ -23,6 +23,7 @@ func propC08(c *Ctx) {
 	c.ruleNormalisers()
 	c.ruleNextDirectiveRecognised("C08-NEXT-DIRECTIVE") // a tab after the keyword is as good as a blank
 	c.ruleBlankPairs("C08-BLANK-PAIRS")
+	c.ruleSchemaExtentByDependency("C08-SCHEMA-EXTENT")
 	c.ruleOpenTransparent(m, "C08-OPEN-TRANSPARENT") // a body in explicit parentheses is the body without them
 	c.ruleC14NameIsPath()                            // blank lines in front of a file move its errors: the content of a file object is the file's bytes
 	if c.R.Tier == "thorough" {
@@ -74,6 +75,7 @@ func propC13(c *Ctx) {
 	c.ruleFirstByteTables("C13-KEYWORD-PREFILTER")
 	c.ruleNextDirectiveRecognised("C13-NEXT-DIRECTIVE")
 	c.ruleResponseCodeGate("C13-RESPONSE-CODE-GATE")
+	c.ruleDisallowedCalls("C13-DISALLOWED-CALLS") // Unicode classes where the language means ASCII digits and blanks
 	a := c.ruleAnalysis(m, map[string]string{}, false)
 	if c.R.Tier == "thorough" {
 		c.thoroughScanner(m, "C13")
@@ -100,6 +102,7 @@ func propC12(c *Ctx) {
 	c.ruleNextDirectiveRecognised("C12-NEXT-DIRECTIVE")
 	c.ruleFirstByteTables("C12-KEYWORD-PREFILTER") // a Description's Text lexeme must end where the next directive starts
 	c.ruleParamsPositionFree("C12-PARAMS-POSITION-FREE")
+	c.ruleOpenTransparent(m, "C12-OPEN-TRANSPARENT")
 	if c.R.Tier == "thorough" {
 		c.thoroughScanner(m, "C12")
 	}
